@@ -26,7 +26,7 @@ ERRS = [{"message": "sub failed", "path": ["a"], "extensions": {"code": "E"}}, {
 # frame kinds named in the statement
 ALPHABET = ["ack", "next", "ping", "pong", "complete", "error", "nonjson", "unknown", "missingtype", "next_nodata"]
 # extra frame classes, each judged under its own mechanism key
-EXTRA = ["json_nonobject", "next_falsy", "error_empty", "error_nopayload"]
+EXTRA = ["json_nonobject", "next_falsy", "error_empty", "error_nopayload", "next_partial"]
 
 
 class FrameGen:
@@ -63,6 +63,10 @@ class FrameGen:
             return json.dumps({"id": "x", "type": "error"})
         if kind == "json_nonobject":
             return json.dumps([[1], "x", 1, None, True, [{"type": "next"}]][n % 6])
+        if kind == "next_partial":
+            # a partial result: data next to errors (legal in the protocol - the payload is an execution result), or next to other members; its data is yielded like any other
+            extra = [{"errors": [{"message": "partly failed", "path": ["tok"]}]}, {"errors": []}, {"errors": None, "extensions": {"cost": n}}, {"extensions": {"trace": [n]}, "hasNext": True}][n % 4]
+            return json.dumps({"id": "x", "type": "next", "payload": dict({"data": {"counter": n, "tok": "t#%d" % n}}, **extra)})
         if kind == "next_falsy":
             return json.dumps({"id": "x", "type": "next", "payload": {"data": [None, {}][n % 2]}})
         raise KeyError(kind)
@@ -158,7 +162,7 @@ def reference(kinds: List[str], frames: List[str]):
         if k == "ack":
             # a second ack is not addressed by the statement: stop judging here (prefix already checked)
             return res(("unspecified", None), k)
-        if k in ("next", "next_falsy"):
+        if k in ("next", "next_falsy", "next_partial"):
             yields.append(json.loads(f)["payload"]["data"])
             falsy.append(k == "next_falsy")
         elif k == "ping":
